@@ -531,6 +531,6 @@ def selftest():
 def subchecks(tier, seed):
     quick = tier == "quick"
     return [
-        SubCheck("ivp", body_ivp, strategy=_ivp_strategy(), examples=3200 if quick else 40000, cases=_pinned_ivp(), shards=16, budget_s=240 if quick else 1500),
-        SubCheck("bvp", body_bvp, strategy=_bvp_strategy(), examples=3200 if quick else 40000, cases=_pinned_bvp(), shards=16, budget_s=240 if quick else 1500),
+        SubCheck("ivp", body_ivp, strategy=_ivp_strategy(), examples=3200 if quick else 60000, cases=_pinned_ivp(), shards=16, budget_s=240 if quick else 1500),
+        SubCheck("bvp", body_bvp, strategy=_bvp_strategy(), examples=3200 if quick else 60000, cases=_pinned_bvp(), shards=16, budget_s=240 if quick else 1500),
     ]
